@@ -378,7 +378,31 @@ def compositions(check, prog, canon):
     y2c = conv(prog, 'transform_cylindrical_to_cartesian', L(rho, ph, z))
     y2s = conv(prog, 'transform_cylindrical_to_spherical', L(rho, ph, z))
 
+    twopi = expr_term(prog, '2*np.pi', {})
+
+    def norm(t):
+        # identities outside the polynomial algebra: hypot(a, b) = sqrt(a^2 + b^2);
+        # sin / cos have period 2 pi; reducing modulo 2 pi twice is reducing once
+        if not isinstance(t, tuple) or not t:
+            return t
+        t = tuple(norm(x) if isinstance(x, tuple) else x for x in t)
+        if not isinstance(t[0], str):
+            return t
+        if t[0] == 'call' and t[1] == 'numpy.hypot' and len(t[2]) == 2:
+            a_, b_ = t[2]
+            return intern(('call', 'numpy.sqrt', (('bin', '+', ('bin', '**', a_, num(2)),
+                                                    ('bin', '**', b_, num(2))),), ()))
+        if t[0] == 'call' and t[1] in ('numpy.sin', 'numpy.cos') and len(t[2]) == 1:
+            a_ = t[2][0]
+            if a_[0] == 'bin' and a_[1] == '%' and canon.equal(a_[3], twopi):
+                return intern(('call', t[1], (a_[2],), t[3]))
+        if t[0] == 'bin' and t[1] == '%' and canon.equal(t[3], twopi) and \
+                t[2][0] == 'bin' and t[2][1] == '%' and canon.equal(t[2][3], twopi):
+            return t[2]
+        return intern(t)
+
     def same(a, b, name, detail):
+        a, b = norm(a), norm(b)
         try:
             ok = canon.equal(a, b)
         except Exception as e:
@@ -423,9 +447,28 @@ def compositions(check, prog, canon):
          'r^2 == rho^2 + z^2')
     same(add(sq(s2y[0]), sq(s2y[2])), sq(r), 'sph->cyl preserves distance',
          'rho^2 + z^2 == r^2')
-    # angles passed through unchanged
-    same(s2y[1], ph, 'sph->cyl azimuth', 'phi unchanged')
-    same(y2s[2], ph, 'cyl->sph azimuth', 'phi unchanged')
+    # the azimuth is the same direction in both systems, and like every azimuth
+    # the conversions return it lies in [0, 2 pi): the incoming one reduced
+    wrapped = intern(('bin', '%', ph, twopi))
+    same(s2y[1], wrapped, 'sph->cyl azimuth', 'phi modulo 2 pi')
+    same(y2s[2], wrapped, 'cyl->sph azimuth', 'phi modulo 2 pi')
+    # distances are formed without squaring the coordinates first: x*x overflows at
+    # |x| > 1.3e154 and underflows below 1.5e-154, where the distance itself is an
+    # ordinary number ("preserve distance from the origin" for very large and
+    # origin-adjacent magnitudes)
+    inputs = {x, y, z, rho}
+    for nm, t in (('cart->sph r', c2s[0]), ('cart->sph polar angle', c2s[1]),
+                  ('cart->cyl rho', c2c[0]), ('cyl->sph r', y2s[0])):
+        squares = [u for v in subterms(t) if v[0] == 'call' and v[1] == 'numpy.sqrt'
+                   for u in subterms(v)
+                   if (u[0] == 'bin' and u[1] == '**' and u[2] in inputs) or
+                   (u[0] == 'bin' and u[1] == '*' and u[2] == u[3] and u[2] in inputs)]
+        check.require(not squares, 'M4-distance-without-squares', nm,
+                      'the length is taken with hypot, not as the root of a sum of '
+                      'squares', loc,
+                      fail_detail='%s is %s: (3, 4, 12) x 1e200 comes back with r = '
+                      'inf and polar angle pi / 2, x 1e-200 with r = 0' % (
+                          nm, show(t)[:80]))
     same(c2c[2], z, 'cart->cyl z', 'z unchanged')
     # azimuth definitions agree between the two Cartesian conversions
     same(c2s[2], c2c[1], 'cart->sph and cart->cyl azimuth', 'same azimuth definition')
@@ -456,10 +499,23 @@ def ranges(check, prog):
                       'azimuth = arctan2(y, x) % (2 pi), hence in [0, 2 pi)',
                       prog.loc(MATH + name, prog.func(MATH + name)),
                       fail_detail='azimuth is %s' % show(phi)[:120])
+    for name, idx in (('transform_spherical_to_cylindrical', 1),
+                      ('transform_cylindrical_to_spherical', 2)):
+        args = L(sym('r'), sym('theta'), sym('phi')) if idx == 1 else \
+            L(sym('rho'), sym('phi'), z)
+        phi = conv(prog, name, args)[idx]
+        ok = phi[0] == 'bin' and phi[1] == '%' and canon.equal(phi[3], twopi) and \
+            phi[2] == sym('phi')
+        check.require(ok, 'M5-azimuth-range', name,
+                      'azimuth = phi % (2 pi), hence in [0, 2 pi)',
+                      prog.loc(MATH + name, prog.func(MATH + name)),
+                      fail_detail='azimuth is %s: handed on as it came, so -0.5 or 7.0 '
+                      'come back outside [0, 2 pi) where the route through Cartesian '
+                      'coordinates returns 5.783 and 0.717' % show(phi)[:80])
     c = conv(prog, 'transform_cartesian_to_spherical', L(x, y, z))
     th = c[1]
     ok = th[0] == 'call' and th[1] == 'numpy.arctan2' and th[2][1] == z and \
-        th[2][0][0] == 'call' and th[2][0][1] == 'numpy.sqrt'
+        th[2][0][0] == 'call' and th[2][0][1] in ('numpy.sqrt', 'numpy.hypot')
     check.require(ok, 'M5-polar-range', 'transform_cartesian_to_spherical',
                   'polar angle = arctan2(sqrt(.) >= 0, z), hence in [0, pi]',
                   prog.loc(MATH + 'transform_cartesian_to_spherical',
